@@ -226,7 +226,10 @@ class C02(Oracle):
         if left is None:
             return None
         if spec["k"] == "list":
-            row = [V.tv(x) for x in V.dec_list(spec["v"])]
+            vals = V.dec_list(spec["v"])
+            if any(isinstance(x, (list, tuple)) for x in vals):
+                return None      # a sequence inside the row list reads as a row of its own: not one flat row
+            row = [V.tv(x) for x in vals]
             if len(row) != len(left):
                 return None
             add = [(x,) for x in row]
